@@ -309,6 +309,10 @@ class VQESolver:
         circuit = self.ansatz.circuit if self.ref_state is None else self.reference_circuit + self.ansatz.circuit
         if self.projective_circuit:
             circuit += self.projective_circuit
+        # An ansatz without reference state drops all its gates at zero parameters: keep the register of the Hamiltonian
+        n_qubits_h = count_qubits(self.qubit_hamiltonian)
+        if circuit.width < n_qubits_h:
+            circuit = Circuit(list(circuit), n_qubits=n_qubits_h)
         energy = self.backend.get_expectation_value(self.qubit_hamiltonian, circuit, **self.simulate_options)
 
         # Additional computation for deflation (optional)
@@ -419,6 +423,9 @@ class VQESolver:
             circuit = ref_state + self.ansatz.circuit
             if self.projective_circuit:
                 circuit += self.projective_circuit
+            n_qubits_h = count_qubits(tmp_hamiltonian)
+            if circuit.width < n_qubits_h:
+                circuit = Circuit(list(circuit), n_qubits=n_qubits_h)
             expectation = self.backend.get_expectation_value(self.qubit_hamiltonian, circuit, **self.simulate_options)
         finally:
             # Restore the current target hamiltonian, also when the evaluation fails
@@ -477,6 +484,9 @@ class VQESolver:
         prep_circuit = ref_state + self.ansatz.circuit
         if self.projective_circuit:
             prep_circuit += self.projective_circuit
+        n_qubits_h = count_qubits(self.qubit_hamiltonian)
+        if prep_circuit.width < n_qubits_h:
+            prep_circuit = Circuit(list(prep_circuit), n_qubits=n_qubits_h)
         if self.backend_options.get("noise_model") is None:
             _, sv = self.backend.simulate(prep_circuit, return_statevector=True, **self.simulate_options)
 
@@ -616,6 +626,9 @@ class VQESolver:
         prep_circuit = ref_state + self.ansatz.circuit
         if self.projective_circuit:
             prep_circuit += self.projective_circuit
+        n_qubits_h = count_qubits(self.qubit_hamiltonian)
+        if prep_circuit.width < n_qubits_h:
+            prep_circuit = Circuit(list(prep_circuit), n_qubits=n_qubits_h)
         if self.backend_options.get("noise_model") is None:
             _, sv = self.backend.simulate(prep_circuit, return_statevector=True, **self.simulate_options)
 
